@@ -147,7 +147,7 @@ def gen_project(rng, tier):
     for _ in range(n):
         _case_no[0] += 1
         root = "/tmp/lhv09/p%x-%d/ws" % (rng.getrandbits(40), _case_no[0])
-        mode = rng.choice(["single", "single", "single", "least", "least", "tie"])
+        mode = rng.choice(["single", "single", "least", "least", "tie", "tie", "tie"])
         files = rng.sample(["a.lua", "b.lua", "c.lua", "lib/d.lua", "lib/e.lua"], rng.randrange(2, 6))
         defs = {f: {} for f in files}       # file -> name -> (line, arity)
         for name in rng.sample(FUNCS, rng.randrange(1, len(FUNCS) + 1)):
@@ -158,8 +158,9 @@ def gen_project(rng, tier):
             lines = rng.sample(range(1, 9), len(owners))
             if mode == "tie" and len(owners) >= 2:
                 lines[1] = lines[0] = min(lines)
-            for o, ln in zip(owners, lines):
-                defs[o][name] = (ln, rng.randrange(0, 4))
+            for k, (o, ln) in enumerate(zip(owners, lines)):
+                # arities differ between the owners: which definition wins shows in the type-10 diagnostics
+                defs[o][name] = (ln, (k + rng.randrange(0, 2)) % 4)
         srcs = {}
         items = []
         for f in files:
@@ -168,8 +169,13 @@ def gen_project(rng, tier):
                 while ln in body:               # one definition per line
                     ln += 1
                 body[ln] = "function %s(%s) end" % (name, ", ".join("p%d" % i for i in range(ar)))
+                sl = 0
+                if mode == "tie" and rng.random() < 0.25:
+                    # the second kind of tie: deeper scope but earlier line against top level and later line
+                    body[ln] = "do " + body[ln] + " end"
+                    sl = 1
                 defs[f][name] = (ln, ar)
-                items.append("%s:%s:0:0:%d" % (hx(name), hx(root + "/" + f), ln))
+                items.append("%s:%s:0:%d:%d" % (hx(name), hx(root + "/" + f), sl, ln))
             last = max(body) if body else 0
             # callers: every file calls some of the functions with some argument count
             calls = []
@@ -200,7 +206,29 @@ def gen_project(rng, tier):
                 lines.append(body.get(ln, "-- " + f))
             lines += calls + extra
             srcs[f] = "\n".join(lines) + "\n"
-        fl = ",".join(hx(f) + ":" + hx(srcs[f]) for f in sorted(files, key=lambda z: rng.random()))
+        # members added to a global table from several files (second loop of generateAllGlobalMaps: the first file
+        # visited that mentions T.x decides which definition T.x has)
+        if rng.random() < 0.35:
+            tn = rng.choice(["T", "Cfg"])
+            owner = rng.choice(files)
+            srcs[owner] += "%s = {}\n" % tn
+            users = rng.sample(files, rng.randrange(1, len(files) + 1))
+            for k, u in enumerate(users):
+                srcs[u] += "%s.x = function(%s) end\n" % (tn, ", ".join("q%d" % i for i in range((k + rng.randrange(0, 2)) % 4)))
+            srcs[rng.choice(files)] += "%s.x(%s)\n" % (tn, ", ".join(str(i) for i in range(rng.randrange(0, 4))))
+        # equally scored module candidates: the same base name in several directories, required from elsewhere
+        if rng.random() < 0.35:
+            base = rng.choice(["m", "util"])
+            dirs = rng.sample(["lib", "src", "x/y", "z"], rng.randrange(2, 4))
+            for k, d in enumerate(dirs):
+                srcs["%s/%s.lua" % (d, base)] = ("local M = {}\nfunction M.f%d(%s) end\nM.common = %d\nreturn M\n"
+                                                 % (k, ", ".join("r%d" % i for i in range(k)), k))
+            user = rng.choice(["", "lib/", "q/", "x/"]) + "use_%s.lua" % base
+            srcs[user] = ('local mm = require("%s")\nprint(mm.f0, mm.f1, mm.common)\nmm.f0(1, 2, 3)\nmm.f1(1, 2, 3)\n'
+                          % base)
+        allf = list(srcs)
+        rng.shuffle(allf)
+        fl = ",".join(hx(f) + ":" + hx(srcs[f]) for f in allf)
         out.append("%s %d %s %s" % (hx(root), nruns, fl, ",".join(items) if items else "-"))
     return out
 
@@ -214,6 +242,89 @@ def project_describe(c):
         return c[:200]
 
 
+# ----------------------------------------------------------------------------- c09.srvrep
+CLASSES = ["A", "Shape", "Cfg"]
+FTYPES = ["number", "string", "boolean", "table", "fun(a: number): string"]
+
+
+def gen_srvrep(rng, tier):
+    """scripted sessions of the REAL server (fresh process per run): annotation classes (sometimes the same class
+    name in several files = feature dupclass), same-named globals with ties, equally scored module candidates;
+    hover / definition / references / symbols / diagnostics must be the same in every run"""
+    n = {"quick": 120, "thorough": 2500, "search": 40}[tier]
+    nreps = {"quick": 6, "thorough": 8, "search": 6}[tier]
+    out = []
+    for _ in range(n):
+        pool = ["a.lua", "b.lua", "lib/c.lua", "lib/d.lua", "z/e.lua"]
+        files = rng.sample(pool, rng.randrange(2, 5))
+        srcs = {f: [] for f in files}
+        dup = rng.random() < 0.3
+        used = rng.sample(CLASSES, rng.randrange(1, 3))
+        for cn in used:
+            owners = rng.sample(files, rng.randrange(2, len(files) + 1)) if dup else [rng.choice(files)]
+            for k, o in enumerate(owners):
+                srcs[o] += ["---@class %s" % cn, "---@field x %s" % FTYPES[(k + rng.randrange(0, 2)) % len(FTYPES)],
+                            "---@field y%d string" % k, "local %s%d = {}" % (cn, k)]
+        # same-named globals (ties are decided by the file name since fixes/C09-deterministic-order.diff)
+        gname = rng.choice(["g", "h"])
+        for k, o in enumerate(rng.sample(files, rng.randrange(1, len(files) + 1))):
+            srcs[o].append("function %s(%s) end" % (gname, ", ".join("p%d" % i for i in range((k + rng.randrange(0, 2)) % 3))))
+        # equally scored module candidates
+        mods = rng.random() < 0.4
+        if mods:
+            for k, d in enumerate(rng.sample(["m1", "m2", "m3"], 2)):
+                srcs["%s/mod.lua" % d] = ["local M = {}", "function M.f%d(%s) end" % (k, ", ".join("r%d" % i for i in range(k))),
+                                          "return M"]
+        # members added to a global table from several files (second loop of generateAllGlobalMaps)
+        memb = rng.random() < 0.4
+        if memb:
+            srcs[rng.choice(files)].append("T = {}")
+            for k, o in enumerate(rng.sample(files, rng.randrange(2, len(files) + 1))):
+                srcs[o].append("T.x = function(%s) end" % ", ".join("q%d" % i for i in range((k + rng.randrange(0, 2)) % 4)))
+        # the querying file
+        u = []
+        steps = []
+        for cn in used:
+            u += ["---@type %s" % cn, "local v%s" % cn, "print(v%s.x)" % cn]
+        u.append("%s(1, 2, 3)" % gname)
+        if memb:
+            u.append("T.x(1, 2)")
+        if mods:
+            u += ['local mm = require("mod")', "print(mm.f0, mm.f1)"]
+        srcs["q/use.lua"] = u
+        names = list(srcs)
+        rng.shuffle(names)
+        ui = names.index("q/use.lua")
+        steps.append("S:open:%d" % ui)
+        for ln, text in enumerate(u):
+            if text.startswith("print(v"):
+                col = text.index(".x") + 1
+                steps += ["S:hover:%d:%d:%d" % (ui, ln, col), "S:define:%d:%d:%d" % (ui, ln, col),
+                          "S:hover:%d:%d:%d" % (ui, ln, 6)]
+            elif text.startswith("T.x("):
+                steps += ["S:hover:%d:%d:2" % (ui, ln), "S:define:%d:%d:2" % (ui, ln)]
+            elif text.startswith(gname + "("):
+                steps += ["S:hover:%d:%d:0" % (ui, ln), "S:define:%d:%d:0" % (ui, ln), "S:refs:%d:%d:0" % (ui, ln)]
+            elif text.startswith("local mm"):
+                steps += ["S:define:%d:%d:%d" % (ui, ln, text.index('"mod') + 2), "S:hover:%d:%d:6" % (ui, ln)]
+            elif text.startswith("print(mm"):
+                steps += ["S:hover:%d:%d:9" % (ui, ln), "S:define:%d:%d:9" % (ui, ln)]
+        steps += ["S:docsym:%d" % ui, "S:diags"]
+        script = " ".join("F:%s:%s" % (hx(f), hx("\n".join(srcs[f]) + "\n")) for f in names) + " " + " ".join(steps)
+        out.append("%d %s %s" % (nreps, "dupclass" if dup else "-", script))
+    return out
+
+
+def srvrep_describe(c):
+    try:
+        dec = lambda h: bytes.fromhex(h).decode("latin1")
+        f = c.split(" ")
+        fs = [x.split(":") for x in f[2:] if x.startswith("F:")]
+        return ("%s | " % f[1]) + " || ".join(dec(x[1]) + ": " + dec(x[2]).replace("\n", " / ") for x in fs)[:700]
+    except Exception:
+        return c[:200]
+
+
 LEGS = [
     Leg("c09.merge", gen_merge, shrink=shrink_items, nontrivial=merge_nontrivial, describe=merge_describe),
     Leg("c09.genmaps", lambda rng, tier: gen_merge(rng, tier, 3000), shrink=shrink_items, nontrivial=merge_nontrivial,
@@ -221,14 +332,16 @@ LEGS = [
     Leg("c09.bestmatch", gen_bestmatch, shrink=shrink_bestmatch, describe=bm_describe, per_case_s=0.2,
         nontrivial=lambda c: len(c.split(" ")[2].split(",")) >= 2),
     Leg("c09.project", gen_project, describe=project_describe, per_case_s=20, jobs=6),
+    Leg("c09.srvrep", gen_srvrep, describe=srvrep_describe, per_case_s=20, jobs=6,
+        nontrivial=lambda c: True),
 ]
 for l in LEGS[1:]:
     l.set_valued = True
 
 TRUSTED = vlib.TRUSTED_COMMON + [
     "modelled, tied by correspondence: AnalysisThird.JudgeShouldInsertGlobalInfo / InsertThirdGlobalGMaps / FindThirdGlobalGInfo, the loop of generateAllGlobalMaps (hook VerifC09GenerateAllGlobalMaps runs the real one), calcMatchStrScore / GetBestMatchReferFile",
-    "Go's map iteration order, sort.Sort and goroutine completion order are modelled as arbitrary permutations; set-valued observables: the implementation's answers over repetitions must lie in the model's set of possible answers",
-    "c09.project: whole analyses repeated in one process under GOMAXPROCS 1/2/16 (map seeds are per iteration in Go); not modelled beyond 'stable unless some global has no least owner'",
+    "Go's map iteration order, sort.Sort and goroutine completion order are modelled as arbitrary permutations; set-valued observables: the implementation's answers over repetitions (freshly built maps, rotated insertion order) must lie in the model's set of possible answers, which is a singleton for the repaired code (fixes/C09-deterministic-order.diff), so any second answer is a violation",
+    "c09.project: whole analyses repeated in one process under GOMAXPROCS 1/2/16 (map seeds are per iteration in Go); the model's prediction is 'every workspace is stable' (tie workspaces, members added to a global table from several files and equally scored module candidates included): the per-file analyses themselves are not modelled here",
 ]
 
 
